@@ -1,5 +1,6 @@
 import Mouette.Lemmas.C04Geo
 import Mouette.Lemmas.C04Medit
+import Mouette.Model.IOGeogramRef
 /-! C04: `import_geogram_ascii` applied to the chunks written by `export_geogram_ascii` (no user attributes, cells
 all tetrahedra — the exporter writes no `cell_ptr`).  The three passes of the importer are evaluated on the 16
 shapes the exported chunk list can take (edges / faces / cells present or not, `facet_ptr` written or not). -/
@@ -12,34 +13,10 @@ def szOf (g : GMesh C) : Sizes := fun k => match k with
   | .facetCorners => g.raw.faces.flatten.length | .cells => g.raw.cells.length
   | .cellCorners => g.raw.cells.flatten.length | .cellFacets => g.raw.cells.flatten.length
 
-set_option maxHeartbeats 1000000 in
-theorem sizesOf_export (cd : Codec C) (g : GMesh C) (ha : g.attrs = []) :
-    sizesOf (exportChunks cd g) = szOf g := by
-  funext k
-  by_cases he : g.raw.edges = [] <;> by_cases hf : g.raw.faces = [] <;> by_cases hc : g.raw.cells = [] <;>
-    by_cases ht : (g.raw.faces.all (fun f => f.length == 3)) = true <;>
-    cases k <;> simp [exportChunks, userChunks, sizesOf, contOf, Cont.name, szOf, ha, he, hf, hc, ht]
-
-
 /-- the pointer pair the importer derives for the facets of an exported mesh -/
 def fpOf (g : GMesh C) : List Nat × List Nat :=
   if g.raw.faces = [] ∨ g.raw.faces.all (fun f => f.length == 3) = true then ([], [])
   else (g.raw.faces.map List.length, prefixSums 0 g.raw.faces)
-
-set_option maxHeartbeats 1000000 in
-theorem ptrPass_export (cd : Codec C) (g : GMesh C) (ha : g.attrs = []) :
-    ptrPass (szOf g) (exportChunks cd g) = some (fpOf g, ([], [])) := by
-  have hp : ∀ fs : List (List Nat), mapOpt readIdx0 ((prefixSums 0 fs).map idx0) = some (prefixSums 0 fs) :=
-    fun fs => mapOpt_idx0 _
-  by_cases he : g.raw.edges = [] <;> by_cases hf : g.raw.faces = [] <;> by_cases hc : g.raw.cells = [] <;>
-    by_cases ht : (g.raw.faces.all (fun f => f.length == 3)) = true <;>
-    simp [exportChunks, userChunks, ptrPass, foldOpt, facetPtrName, cellPtrName, typeOf, szOf, fpOf, ha, he, hf, hc, ht, hp,
-      ptrSizes_export g.raw.faces]
-  all_goals
-    have hps := ptrSizes_export g.raw.faces hf
-    simp only [List.length_flatten] at hps
-    simp [hps]
-
 
 theorem facesBuild (g : GMesh C) :
     buildElems g.raw.faces.flatten g.raw.faces.length (defaultPtr 3 g.raw.faces.length (fpOf g)) = some g.raw.faces := by
@@ -103,50 +80,33 @@ theorem flat_len (es : List (Nat × Nat)) : (es.flatMap (fun e => [e.1, e.2])).l
   | cons e t ih => simp [ih]; omega
 
 
-/-- what the importer returns for an exported mesh without user attributes: the mesh itself; the `facet_ptr`
-block (when written) additionally shows up as an integer attribute of the facets, exactly as in the Python code -/
-def expectedG (g : GMesh C) : GMesh C :=
-  { raw := { g.raw with hard := none },
-    attrs := if g.raw.faces = [] ∨ g.raw.faces.all (fun f => f.length == 3) = true then [] else
-      [{ cont := .facets, name := facetPtrName, typ := .int, dim := 1, vals := (prefixSums 0 g.raw.faces).map idx0 }],
-    adj := if g.raw.cells = [] then [] else g.adj }
+/-- pointer pair derived by the importer for a list of elements whose default arity is `k` -/
+def ptrOf (k : Nat) (l : List (List Nat)) : List Nat × List Nat :=
+  if l = [] ∨ allLen k l = true then ([], []) else (l.map List.length, prefixSums 0 l)
+
+theorem elemsBuild (k : Nat) (l : List (List Nat)) :
+    buildElems l.flatten l.length (defaultPtr k l.length (ptrOf k l)) = some l := by
+  unfold ptrOf
+  by_cases hf : l = []
+  · simp [hf, buildElems, defaultPtr, mapOpt]
+  · by_cases ht : allLen k l = true
+    · simp only [hf, ht, or_true, if_true]
+      apply buildElems_default k
+      intro f hfm
+      have := List.all_eq_true.mp ht f hfm
+      simpa using this
+    · have e : (if l = [] ∨ allLen k l = true then (([], []) : List Nat × List Nat)
+            else (l.map List.length, prefixSums 0 l)) = (l.map List.length, prefixSums 0 l) := by
+        simp [hf, ht]
+      rw [e]
+      have hpos : ¬ ((l.map List.length).length = 0 ∧ 0 < l.length) := by simp [hf]
+      simp only [defaultPtr, hpos, if_false]
+      exact buildElems_ptr _
 
 theorem convVals_int (cd : Codec C) (l : List Nat) : convVals cd .int (l.map idx0) = some (l.map idx0) := by
   simp only [convVals]
   have := mapOpt_map_gen idx0 (fun tk => (readInt tk).map Tok.int) idx0 l (fun x _ => rfl)
   simpa using this
-
-set_option maxHeartbeats 4000000 in
-theorem mainPass_export (cd : Codec C) (h : RoundTrips cd) (g : GMesh C) (ha : g.attrs = [])
-    (htet : ∀ c ∈ g.raw.cells, c.length = 4) :
-    foldOpt (stepImport cd (szOf g) (defaultPtr 3 g.raw.faces.length (fpOf g)) (defaultPtr 4 g.raw.cells.length ([], [])))
-      {} (exportChunks cd g) = some (expectedG g) := by
-  have hF := facesBuild g
-  have hC := buildElems_default 4 g.raw.cells htet
-  have hA : mapOpt readIdx0 (g.adj.map idx0) = some g.adj := mapOpt_idx0 _
-  have hFc : mapOpt readIdx0 (g.raw.faces.flatten.map idx0) = some g.raw.faces.flatten := mapOpt_idx0 _
-  have hCc : mapOpt readIdx0 (g.raw.cells.flatten.map idx0) = some g.raw.cells.flatten := mapOpt_idx0 _
-  have hP := pts_read cd h g.raw.verts
-  have hE := edges_read g.raw.edges
-  have hE2 : ¬ ((g.raw.edges.flatMap (fun e => [e.1, e.2])).length < 2 * g.raw.edges.length) := by
-    rw [flat_len]; omega
-  have hE3 : (g.raw.edges.flatMap (fun e => [e.1, e.2])).take (2 * g.raw.edges.length)
-      = g.raw.edges.flatMap (fun e => [e.1, e.2]) := by
-    apply List.take_of_length_le; rw [flat_len]; omega
-  have hE4 := pairs_flat g.raw.edges
-  have hV := convVals_int cd (prefixSums 0 g.raw.faces)
-  by_cases he : g.raw.edges = [] <;> by_cases hf : g.raw.faces = [] <;> by_cases hc : g.raw.cells = [] <;>
-    by_cases ht : (g.raw.faces.all (fun f => f.length == 3)) = true <;>
-    simp [exportChunks, userChunks, stepImport, foldOpt, facetPtrName, cellPtrName, typeOf, contOf, Cont.name, szOf,
-      expectedG, ha, he, hf, hc, ht, hF, hC, hA, hFc, hCc, hP, hE, hE2, hE3, hE4, hV, triples_flat, sum_two, -List.map_flatten]
-
-
-theorem importChunks_exportChunks (cd : Codec C) (h : RoundTrips cd) (g : GMesh C) (ha : g.attrs = [])
-    (htet : ∀ c ∈ g.raw.cells, c.length = 4) :
-    importChunks cd (exportChunks cd g) = some (expectedG g) := by
-  unfold importChunks
-  simp only [sizesOf_export cd g ha, ptrPass_export cd g ha]
-  exact mainPass_export cd h g ha htet
 
 /-- one user attribute chunk in isolation: read back with its container, name, type, arity and values -/
 theorem stepImport_attrChunk (cd : Codec C) (sz : Sizes) (fp cp : List Nat × List Nat) (g : GMesh C) (a : GAttr)
